@@ -400,6 +400,8 @@ type agg struct {
 	deathsAlone    int64 // deaths confirmed by re-running the history alone
 	deathsBySig    int64 // later deaths with an already confirmed signature (key + panic frame)
 	confirmedSig   map[string]int
+	cappedShards   int // shards of the current phase that stopped at the budget
+	cappedFirst    int // lowest history index left unexplored in the current phase
 }
 
 func (a *agg) setHard(msg string) {
@@ -419,7 +421,10 @@ func (a *agg) record(rec histRecord) {
 		a.skipped++
 		return
 	case "cap":
-		c.Capped(rec.Note)
+		a.cappedShards++
+		if a.cappedFirst < 0 || rec.Idx < a.cappedFirst {
+			a.cappedFirst = rec.Idx
+		}
 		return
 	}
 	c.Eval(1)
@@ -591,7 +596,20 @@ func (a *agg) runPhase(bin string, ph phase, n int, deadline time.Time) {
 	wg.Wait()
 	a.mu.Lock()
 	a.dead = append(a.dead, newDead...)
+	if a.cappedShards > 0 {
+		a.c.Capped(fmt.Sprintf("budget: depth %d over %d document(s): %d of %d shards stopped early; histories from index %d (of %d) on are only partly explored",
+			ph.Depth, ph.Docs, a.cappedShards, n, a.cappedFirst, ipow(20*ph.Docs, ph.Depth)))
+	}
+	a.cappedShards, a.cappedFirst = 0, -1
 	a.mu.Unlock()
+}
+
+func ipow(b, e int) int {
+	r := 1
+	for ; e > 0; e-- {
+		r *= b
+	}
+	return r
 }
 
 // ---------------------------------------------------------------- race pass
@@ -647,6 +665,7 @@ func (a *agg) racePass(bin string, depth, docs, reps, n int, deadline time.Time)
 	os.WriteFile(cfgPath, data, 0o644)
 	var mu sync.Mutex
 	var runs, hists int64
+	cappedRace := 0
 	var replays []json.RawMessage
 	var notes []string
 	var wg sync.WaitGroup
@@ -661,7 +680,7 @@ func (a *agg) racePass(bin string, depth, docs, reps, n int, deadline time.Time)
 					mu.Lock()
 					defer mu.Unlock()
 					if rec.Type == "cap" {
-						c.Capped(rec.Note)
+						cappedRace++
 						return
 					}
 					hists++
@@ -690,6 +709,9 @@ func (a *agg) racePass(bin string, depth, docs, reps, n int, deadline time.Time)
 		}(s)
 	}
 	wg.Wait()
+	if cappedRace > 0 {
+		c.Capped(fmt.Sprintf("budget: race pass: %d of %d shards stopped early (%d histories done)", cappedRace, n, hists))
+	}
 	var logs strings.Builder
 	files, _ := filepath.Glob(filepath.Join(logDir, "*"))
 	for _, f := range files {
@@ -757,7 +779,7 @@ func run(c *core.Ctx) {
 		phases = []phase{{1, 2, 3}, {2, 2, 3}, {3, 2, 1}, {3, 1, 2}, {4, 1, 1}}
 		raceDepth, raceReps, raceReserve = 2, 100, 4*time.Minute
 	}
-	a := &agg{c: c, byDepth: map[string]int64{}, deathsByKey: map[string]int64{}, confirmedSig: map[string]int{}}
+	a := &agg{c: c, byDepth: map[string]int64{}, deathsByKey: map[string]int64{}, confirmedSig: map[string]int{}, cappedFirst: -1}
 	var plan []map[string]int
 	for _, ph := range phases {
 		plan = append(plan, map[string]int{"depth": ph.Depth, "documents": ph.Docs, "max_deviations": ph.MaxDev})
@@ -795,7 +817,12 @@ func run(c *core.Ctx) {
 		fatal("cannot build the -race harness:\n%v", rb.err)
 	}
 	tr := time.Now()
-	a.racePass(rb.path, raceDepth, 2, raceReps, 8, c.Deadline.Add(20*time.Second))
+	// the race pass always gets a minimal slot of its own, whatever the controlled pass used
+	raceDeadline := c.Deadline.Add(20 * time.Second)
+	if min := time.Now().Add(raceReserve); raceDeadline.Before(min) {
+		raceDeadline = min
+	}
+	a.racePass(rb.path, raceDepth, 2, raceReps, 8, raceDeadline)
 	c.Set("race_pass_wall_s", float64(int(time.Since(tr).Seconds()*10))/10)
 }
 
